@@ -71,15 +71,22 @@ Run-time facts the semantics encodes (with their source):
   in the current frames (`import` pushes an empty frame first); an import then stores its
   alias(es) (`from … import` resolves the names against the exported locals of the module, not
   against the context).  What the other template itself asks the context for belongs to that
-  template's own report and is not part of this model; whatever an included template assigns in
-  the includer's frame only binds more names.
+  template's own report and not to this file's look-ups (`MJ/Model/MetaSet.lean`: every code
+  unit of a file — top level, block bodies, macros — may be entered by the other files of a
+  set with arbitrary frames); the names an included template leaves behind in the includer's
+  frame are part of the choice tree (`Ch.leak`).
 * A render can fail anywhere (undefined values, unknown filters, fuel, …): the choice tree can
   cut the look-ups of any statement after any number of them (`Ch.ab`); the failure propagates
   through every construct (a failing macro body fails the caller at the call, not at the
   declaration where the model accounts for it; there it is ignored).
 
-Not modelled (validated by the oracle of the harness only): the look-ups of *other* templates
-(included, imported, extended), debug-mode error reports, globals.
+Macro and call-block bodies called at any later point (instead of accounted for at the
+declaration), the frame structure of `Context::load` (locals → loop → closure → context) and
+file sets: `MJ/Model/MetaSet.lean`.
+
+Not modelled (validated by the oracle of the harness only): debug-mode error reports, globals
+(they are consulted after the context, so they never save a context look-up), host callables
+that read the context through `State::lookup`.
 -/
 
 namespace MJ.Meta
@@ -436,6 +443,13 @@ def Ch.ab : Ch → Nat
 
 def Ch.sub0 (c : Ch) : List Ch := c.subs.headD []
 
+/-- for an `include`: the names the included template stores into the includer's frame
+(`Include` runs the other template's code in the current frames, so its `StoreLocal`s land in
+the top frame of the includer).  Spelled by the choice tree: one entry of `subs` per name, one
+`Ch` per character (`n` = code point), so every finite list of names is some choice. -/
+def Ch.leak (c : Ch) : List String :=
+  c.subs.map (fun l => String.ofList (l.map (fun ch => Char.ofNat ch.n)))
+
 def Ch.default : Ch := .mk 0 [] [] 0
 
 /-- result of running a piece of code: the new top frame, the context keys asked, whether
@@ -580,7 +594,10 @@ def exec (K : Reenter) (rc : RC) (bt : BT) (top : Frame) (below : List Frame) (c
       -- CallBlock: fresh frame on top of the current ones, separate instructions
       let r := execList K [] bt [] (top :: below) c.sub0 body
       ⟨top, r.reads, r.aborted, r.aborted⟩
-  | .include name => ⟨top, lookups top below (vars name), false, false⟩
+  | .include name =>
+      -- the name expression is evaluated first; then the other template runs in the current
+      -- frames and may leave any names behind in the top frame
+      ⟨c.leak ++ top, lookups top below (vars name), false, false⟩
   | .extends name => ⟨top, lookups top below (vars name), false, false⟩
   | .importAs e target =>
       -- PushWith; name expression; Include; …; PopFrame; store the alias
